@@ -127,7 +127,16 @@ def run_once(case: Dict[str, Any], dup: bool) -> Dict[str, Any]:
                             for lst in listeners]
 
     def keyed(seed: int):
-        return lambda site, a, b, t_ms: a + (zlib.crc32(f'{seed}/{site}/{t_ms}'.encode()) % (b - a + 1))
+        seen: Dict[Tuple[str, int], int] = {}
+
+        def fn(site: str, a: int, b: int, t_ms: int) -> int:
+            # keyed by (site, virtual millisecond, occurrence within that millisecond): two browsers started at one instant
+            # get different delays (no artificial timer ties), while extra draws elsewhere in run D cannot shift other sites
+            k = seen.get((site, t_ms), 0)
+            seen[(site, t_ms)] = k + 1
+            return a + (zlib.crc32(f'{seed}/{site}/{t_ms}/{k}'.encode()) % (b - a + 1))
+
+        return fn
 
     with sim.World(jitter_seed=case['seed'], jitter_keyed=True) as w:
         fn = keyed(case['seed'])
@@ -166,6 +175,28 @@ def check(case: Dict[str, Any]) -> Dict[str, Any]:
         if run['errors']:
             raise Violation(f'exception reached the event loop in the {name} run: ' + str(run['errors'][0].get('exception')),
                             run['errors'][:2], tag='loop-exception')
+    # ---- open finding F10: exclusion by classification ---------------------------------------------------
+    # A datagram with a QU question is processed twice in full.  Whenever its processing has multicast side effects in the
+    # reference run (an immediate multicast at that instant, QM questions or a pending truncated train from the same source in
+    # the same assembly, or a legacy source port, whose reply is always multicast as well) the duplicated run legitimately-by-the-code differs (doubled or moved multicast, and everything
+    # downstream of the changed sighting times).  Such cases are counted and skipped; all others are compared in full.
+    f10 = 0
+    pending_tc: Dict[str, bool] = {}
+    for i, ev in zip(R['injected'], case['events']):
+        if ev['kind'] != 'query':
+            continue
+        src = i['src'][0]
+        if i['qu']:
+            t_rel = round(i['t'] - R['t0'], 2)
+            mixed = any(not q[3] for q in ev['qs'])
+            mc_now = any(abs(e[0] - t_rel) <= 0.01 and e[2] in (sim.MDNS4, sim.MDNS6) and len(e[4]) > 3 and e[4][1] & 0x8000
+                         for e in R['trace'])
+            if mixed or ev['tc'] or pending_tc.get(src) or mc_now or ev['probe'] or ev['port'] != 5353:
+                f10 += 1
+        pending_tc[src] = bool(ev['tc'])
+    if f10:
+        return {'nontrivial': False, 'classes': ['excluded-known-F10'], 'excluded': {'F10-qu-duplicate-multicast': f10},
+                'max': {'events': len(case['events'])}}
     qu_instants: Dict[float, Set[Tuple[str, int]]] = {}
     for i in R['injected']:
         if i['qu']:
